@@ -227,6 +227,9 @@ def run(rep, tier, rng):
     for a, b in (("{a: !force [1]}", "{a: [7, 8, 9]}"), ("{a: [1]}", "{a: !weak [7, 8, 9]}"), ("{t: {s: !force [w], lr: 1}}", "{t: {s: [a, b, c, d]}}"),
                  ("{a: !force {l: [1]}}", "{a: {l: [7, 8, 9]}}"), ("{a: !weak [1]}", "{a: [7, 8, 9]}")):
         hist.append([parse_doc(a), parse_doc(b)])
+    # a mapping whose integer keys lie beyond the end of the list it meets: an error for every order of its entries and every repetition
+    for a, b in (("{a: [1, 2, 3], b: 0}", "{a: {5: x, 7: y}}"), ("{a: [1]}", "{a: {2: x, 1: y}}"), ("{l: [0]}", "{l: {1: a, 3: b, 2: c}}"), ("{t: {l: [1, 2]}}", "{t: {l: {2: p, 4: q}}}")):
+        hist.append([parse_doc(a), parse_doc(b)])
     # value-less entries (`key:`) reach a container as ONE shared None; a tagged container builds its children through a memo keyed by object identity
     E = lambda: ('sc', None, '')
     hist.append([('map', None, [('a', ('sc', None, '1')), ('extra', ('map', None, [('seed', E()), ('tag', E()), ('n', ('sc', None, '3'))]))])])
